@@ -34,11 +34,12 @@ RULE = ('source streams (valid images, zeros, random, crafted parser-breaking co
         'boundary fault (inspector x chunk index x exception type) exhaustively, multiple faults sampled, line-level '
         'failpoints inside the inspectors\' own code (sys.monitoring), natural parser faults. non-trivial = plan with '
         'at least one fault or an expected format; distinct by (stream, schedule, source kind, expected, allowed, plan)')
-REQUIRED_CLAUSES = ['empty-chunk-midstream', 'T1-conservation', 'T2-never-fed-after-raise', 'T3-exactly-once-in-order', 'T4-isolation',
+REQUIRED_CLAUSES = ['expected_format-given-as-str-subclass', 'empty-chunk-midstream', 'T1-conservation', 'T2-never-fed-after-raise', 'T3-exactly-once-in-order', 'T4-isolation',
                     'T5-own-exception-propagates', 'T5-mismatch-abort', 'T5-no-read-beyond-abort', 'line-failpoint-fired',
                     'natural-fault-observed']
 ASSUMPTIONS = ['only Exception subclasses are injected (the wrapper does not promise to stop BaseException)',
                'instance-level wrappers around the real eat_chunk record feeds; the real method still runs underneath']
+INTERPRETER_FLAGS = [[], ['-O'], [], ['-bb']]
 SHARDS = {'quick': 8, 'thorough': 16}
 MIN_DISTINCT = {'quick': 5000, 'thorough': 50000}
 LEVEL_TEXT = ('Fault enumeration: every single boundary fault placement (10 inspectors x chunk index <= 12 x exception pool '
@@ -168,7 +169,14 @@ def run_recorded(case):
             def close(self):
                 self.closed = True
         src = Src()
-    w = F.InspectWrapper(src, expected_format=case.get('expected'), allowed_formats=case.get('allowed'))
+    exp_arg = case.get('expected')
+    if exp_arg is not None and case.get('expected_style') == 'strenum':
+        import enum
+        # a member of class DiskFormat(str, Enum): a str equal to the format name, whose str() is 'DiskFormat.QCOW2'
+        exp_arg = enum.Enum('DiskFormat', {exp_arg.upper(): exp_arg}, type=str)[exp_arg.upper()]
+    elif exp_arg is not None and case.get('expected_style') == 'strsub':
+        exp_arg = type('FormatName', (str,), {})(exp_arg)
+    w = F.InspectWrapper(src, expected_format=exp_arg, allowed_formats=case.get('allowed'))
     plan = {k: v for k, v in (case.get('plan') or {}).items()}
     line_k = case.get('line_fault')
     if line_k:
@@ -336,7 +344,9 @@ def evaluate(ctx, case):
     plan = case.get('plan') or {}
     key = (repr(case.get('spec') or case.get('data')), tuple(case['cuts']), case['source'], case.get('expected'),
            tuple(case.get('allowed') or ()), tuple(sorted((k, tuple(v)) for k, v in plan.items())), case.get('line_fault'),
-           case.get('line_target'), tuple(case.get('empties') or ()))
+           case.get('line_target'), tuple(case.get('empties') or ()), case.get('expected_style'))
+    if case.get('expected_style'):
+        ctx.clause('expected_format-given-as-str-subclass')
     ctx.case(key, nontrivial=bool(plan) or bool(case.get('expected')) or bool(case.get('line_fault')))
     for rule, n in ev.items():
         ctx.clause(rule, n)
@@ -408,6 +418,8 @@ def run(ctx):
     def emit(case, klass):
         nonlocal idx
         idx += 1
+        if case.get('expected') in NAMES and idx % 5 in (0, 1):
+            case = dict(case, expected_style='strenum' if idx % 5 == 0 else 'strsub')
         if ctx.mine(idx):
             ctx.sample(klass, {k: v for k, v in case.items() if k != 'data'})
             evaluate(ctx, case)
